@@ -50,10 +50,12 @@ def ref_imputer_mode(names, model, loss, log, data):
             s = frozenset(subset)
             if not (call[2] == x):
                 raise Bad("chain-instance", f"observation {i}: imputer was called for instance {call[2]!r}, expected {x!r}")
-            for xi in inputs:
+            for xi, res in zip(inputs, results):
                 # (the explained data may be its own background, so an imputed value can coincide with x's)
-                if not decoded_subset(names, x, xi) <= s:
-                    raise Bad("chain-instance", f"observation {i}: model input differs from it outside the imputed set")
+                if set(xi.keys()) != set(x.keys()) or any(not (xi[k] == x[k]) for k in x if k not in s):
+                    raise Bad("chain-instance", f"observation {i}: model input differs from it outside the imputed set {sorted(map(repr, s))}: {xi!r}")
+                if not (res == model.one({k: (xi[k] if k in s else x[k]) for k in x})):
+                    raise Bad("prediction", f"observation {i}: imputed prediction is not the model's output for x with {sorted(map(repr, s))} replaced")
             diff = remaining - s
             if len(diff) != 1 or not s < remaining:
                 raise Bad("chain", f"observation {i}: sets not a chain")
@@ -139,24 +141,26 @@ def main(run):
         d, m, n_inner = rnd.choice([1, 2, 3, 4]), rnd.choice([1, 2, 3, 5, 8]), rnd.choice([1, 2, 3])
         names = make_names(rnd.choice(["str", "int", "float"]), d)
         clock = Clock()
-        model = Models(rnd.choice(["scalar", "multi", "grow", "ignore"]), names, exact=True, clock=clock)
+        model = Models(rnd.choice(["scalar", "multi", "grow", "ignore", "positional"]), names, exact=True, clock=clock)
         loss = Losses(rnd.choice(["hash", "hash", "sq"]), exact=True, clock=clock)
         mode = rnd.choice(["many", "original", "explain_one", "explain_one_original"])
+        # data may carry features that are not explained (the model reads them); not in original mode (statement's precondition)
+        extras = [f"extra{j}" for j in range(rnd.choice([0, 0, 1, 2]))] if "original" not in mode else []
         strat = rnd.choice(["joint", "product"])
         seed = rnd.randrange(2 ** 31)
         random.seed(seed)
         np.random.seed(seed)
         st = storage_proxy(BatchStorage, clock)(store_targets=True)
         imp = ImputerProxy(MarginalImputer(model, strat, st), clock)
-        data = [({f: 1000 * (t + 1) + j for j, f in enumerate(names)}, rnd.randrange(-4, 5)) for t in range(m)]
-        replay = {"mode": mode, "d": d, "rows": m, "n_inner": n_inner, "strategy": strat, "names": names, "seed": seed,
+        data = [({f: 1000 * (t + 1) + j for j, f in enumerate(names + extras)}, rnd.randrange(-4, 5)) for t in range(m)]
+        replay = {"mode": mode, "unexplained_features": extras, "d": d, "rows": m, "n_inner": n_inner, "strategy": strat, "names": names, "seed": seed,
                   "model": model.kind, "loss": loss.kind}
         try:
             e = BatchSage(model, names, loss, n_inner_samples=n_inner, storage=st, imputer=imp)
             override = rnd.choice([None, None, 1, 2])
             used = override or n_inner
             if mode in ("many", "original"):
-                bg = [({f: 500000 + 1000 * t + j for j, f in enumerate(names)}, 0) for t in range(rnd.choice([1, 3]))]
+                bg = [({f: 500000 + 1000 * t + j for j, f in enumerate(names + extras)}, 0) for t in range(rnd.choice([1, 3]))]
                 if mode == "many":
                     for x, y in bg:
                         st.update(x, y)       # background for the imputer; explained data is separate
